@@ -395,7 +395,7 @@ void Sim::waitChildren() {
 void Sim::noteCallback(int kind, long level) {
     NoCount noCount;
     eventHash = mix64(eventHash, 0xCB000000ULL ^ (uint64_t(uint32_t(curTask + 1)) << 32) ^ (uint64_t(uint32_t(curWorker + 1)) << 24)
-                                     ^ (uint64_t(kind) << 16) ^ (uint64_t(level & 0xFF) << 8) ^ uint64_t(depth));
+                                     ^ (uint64_t(kind) << 16) ^ uint64_t(depth));   // the level argument is not hashed: it may be garbage when the code under test is wrong
     if (curTask >= 0 && curTask < int(tasks.size())) {
         Task& t = *tasks[curTask];
         if (t.nbCallbacks == 0) { t.firstKind = kind; t.firstLevel = level; }
